@@ -8,11 +8,11 @@ every emitted function natively on the input table and comparing with TLC's outp
 import json
 
 NAMINGS = [
-    {"a": "a", "b": "b", "s": "s", "i": "i", "j": "j", "x": "x", "y": "y", "g": "g", "n": "n", "c": "", "l": "outer"},
+    {"a": "a", "b": "b", "s": "s", "i": "i", "j": "j", "x": "x", "y": "y", "g": "g", "n": "n", "c": "", "l": "outer", "u": "hi", "v": "lo"},
     {"a": "left", "b": "right", "s": "total", "i": "idx", "j": "jdx", "x": "first", "y": "second", "g": "apply", "n": "depth",
-     "c": "\t// renamed variant\n", "l": "rows"},
+     "c": "\t// renamed variant\n", "l": "rows", "u": "top", "v": "bot"},
     {"a": "p0", "b": "p1", "s": "acc", "i": "k", "j": "m", "x": "t0", "y": "t1", "g": "fn", "n": "lvl", "c": "\n\t/* spaced\n\t   out */\n",
-     "l": "L0"},
+     "l": "L0", "u": "m1", "v": "m0"},
 ]
 COMM = {"+", "*"}
 
@@ -82,6 +82,11 @@ def emit(p, fname, naming=0):
         g, x = N["g"], N["x"]
         return sig + "\t%s := func(%s int) int {\n\t\treturn %s\n\t}\n\treturn %s\n}\n" % (
             g, x, binw(p["op"], x, a, pres, True), binw(p["op2"], "%s(%s)" % (g, b), "%s(3)" % g, pres, False))
+    if t == "closure2":
+        g, x, u, v = N["g"], N["x"], N["u"], N["v"]
+        return sig + "\t%s, %s := %s+1, %s-1\n\t%s := func(%s int) int {\n\t\treturn %s\n\t}\n\treturn %s\n}\n" % (
+            u, v, a, b, g, x, binw(p["op"], "%s*%s" % (x, u), v, pres, True),
+            binw(p["op2"], "%s(%s)" % (g, b), "%s(3)" % g, pres, False))
     if t == "loopbranch":
         s_, i, t_ = N["s"], N["i"], N["y"]
         r = b if p["rhs"] == "b" else "1"
